@@ -4,6 +4,7 @@ import Driver.Core
 import Driver.C18
 import Driver.C14
 import Driver.C15
+import Driver.C16
 import Driver.C12
 import Driver.C19
 import Driver.C20
@@ -36,7 +37,7 @@ import Driver.PuzCastleWall
 import Driver.PuzShakashaka
 open Cspuz Cspuz.Drv
 
-def handlers : List (Sexp → Option Sexp) := [handleC13, handleGraph, handleCore, handleC18, handleC14, handleC15, handleC12, handleC19, handleC20, handleC03, handlePuzSudoku, handlePuzStarBattle, handlePuzPutteria, handlePuzNorinori, handlePuzAkari, handlePuzAquarium, handlePuzBuilding, handlePuzDoppelblock, handlePuzSlitherlink, handlePuzSimpleloop, handlePuzMasyu, handlePuzGeradeweg, handlePuzYajilin, handlePuzCreek, handlePuzGokigen, handlePuzNurimisaki, handlePuzLits, handlePuzHeyawake, handlePuzView, handlePuzNurikabe, handlePuzCompass, handlePuzFillomino, handlePuzFivecells, handlePuzYinyang, handlePuzCastleWall, handlePuzShakashaka]
+def handlers : List (Sexp → Option Sexp) := [handleC13, handleGraph, handleCore, handleC18, handleC14, handleC15, handleC16, handleC12, handleC19, handleC20, handleC03, handlePuzSudoku, handlePuzStarBattle, handlePuzPutteria, handlePuzNorinori, handlePuzAkari, handlePuzAquarium, handlePuzBuilding, handlePuzDoppelblock, handlePuzSlitherlink, handlePuzSimpleloop, handlePuzMasyu, handlePuzGeradeweg, handlePuzYajilin, handlePuzCreek, handlePuzGokigen, handlePuzNurimisaki, handlePuzLits, handlePuzHeyawake, handlePuzView, handlePuzNurikabe, handlePuzCompass, handlePuzFillomino, handlePuzFivecells, handlePuzYinyang, handlePuzCastleWall, handlePuzShakashaka]
 
 def handle (s : Sexp) : Sexp :=
   match s with
